@@ -77,6 +77,31 @@ def assigned_names(loop):
     return names
 
 
+def extract_step(fnode):
+    """mechanical extraction of a runner generator's step function.
+    Shape required: (prelude) ... [try:] while True: <name> = (yield <expr>) ; <body...>
+    Returns (param name, body statements after the yield, yield expression).  Dropped: the prelude (runs once
+    at creation), the generator protocol (send/close/StopIteration), and the enclosing try/finally that fires
+    on generator death."""
+    def find(stmts):
+        for st in stmts:
+            if isinstance(st, ast.While) and isinstance(st.test, ast.Constant) and st.test.value is True:
+                return st
+            if isinstance(st, ast.Try):
+                r = find(st.body)
+                if r is not None:
+                    return r
+        return None
+    loop = find(fnode.body)
+    if loop is None or not loop.body:
+        raise Unsupported("generator %s: no `while True:` step loop" % fnode.name)
+    first = loop.body[0]
+    if not (isinstance(first, ast.Assign) and len(first.targets) == 1 and isinstance(first.targets[0], ast.Name)
+            and isinstance(first.value, ast.Yield)):
+        raise Unsupported("generator %s: step loop does not start with `x = (yield e)`" % fnode.name)
+    return first.targets[0].id, loop.body[1:], first.value.value
+
+
 def is_generator(fnode):
     for n in ast.walk(fnode):
         if isinstance(n, (ast.Yield, ast.YieldFrom)):
